@@ -279,15 +279,37 @@ fn read_rels(files: &BTreeMap<String, Vec<u8>>, part: &str, errors: &mut Vec<Str
     out
 }
 
+/// ST_Xstring (ECMA-376 Part 1 22.9.2.19): `_xHHHH_` stands for the character U+HHHH
+pub fn xstring(s: &str) -> String {
+    let b: Vec<char> = s.chars().collect();
+    let mut out = String::new();
+    let mut i = 0;
+    while i < b.len() {
+        if b[i] == '_' && i + 6 < b.len() && b[i + 1] == 'x' && b[i + 6] == '_' {
+            let h: String = b[i + 2..i + 6].iter().collect();
+            if h.chars().all(|c| c.is_ascii_hexdigit()) {
+                if let Some(c) = u32::from_str_radix(&h, 16).ok().and_then(char::from_u32) {
+                    out.push(c);
+                    i += 7;
+                    continue;
+                }
+            }
+        }
+        out.push(b[i]);
+        i += 1;
+    }
+    out
+}
+
 fn si_text(si: &El) -> String {
     // text of a CT_Rst: <t> plus every <r><t>; phonetic runs <rPh> are not part of the value
     let mut s = String::new();
     for c in &si.children {
         match c.name.as_str() {
-            "t" => s.push_str(&c.text),
+            "t" => s.push_str(&xstring(&c.text)),
             "r" => {
                 for t in c.kids("t") {
-                    s.push_str(&t.text);
+                    s.push_str(&xstring(&t.text));
                 }
             }
             _ => {}
